@@ -96,7 +96,9 @@ def classify(ctx, pydsdl, fn, main_path, allowed_paths, what, case, referrer=Non
         return "error:" + type(ex).__name__
     except pydsdl.InternalError as ex:
         c = culprit_of(ex)
-        ctx.violation("C13/internal-error/" + c, "%s: InternalError escaped: %s" % (what, str(ex)[:300]), case)
+        text = str(ex)
+        text = text if len(text) <= 900 else text[:300] + " [...] " + text[-500:]   # the cause sits at the end of the text
+        ctx.violation("C13/internal-error/" + c, "%s: InternalError escaped: %s" % (what, text), case)
         return "internal"
     except CaseTimeout:
         raise
